@@ -1433,7 +1433,9 @@ class Template:
             keys = ctx.globals_keys - self.globals.keys()
 
             if keys:
-                return self.make_module({k: ctx.parent[k] for k in keys})
+                return self.make_module(
+                    {k: ctx._globals[k] for k in keys if k in ctx._globals}
+                )
 
         if self._module is None:
             self._module = self.make_module()
@@ -1447,7 +1449,9 @@ class Template:
             keys = ctx.globals_keys - self.globals.keys()
 
             if keys:
-                return await self.make_module_async({k: ctx.parent[k] for k in keys})
+                return await self.make_module_async(
+                    {k: ctx._globals[k] for k in keys if k in ctx._globals}
+                )
 
         if self._module is None:
             self._module = await self.make_module_async()
